@@ -22,6 +22,18 @@ CHECKS = {
              "are genuine defects of the pinned code, listed in known_findings.json. add_namespace with an empty prefix is outside the proved domain.",
         technique="Lean 4 invariant proofs by induction over operation histories + op-sequence correspondence with the real NamespaceManager",
         design="§4.C03"),
+    "C05": dict(
+        text="Lean theorems about the record model (add_attributes transcribed branch for branch): Normal r -> Normal after "
+             "add_attributes with any list of (name, value) pairs in any representation, whether or not the call fails part-way "
+             "(c05_addAttributes_preserves_normal, induction over the pair list); a different second value for a filled PROV formal "
+             "slot is refused with ProvException leaving the record unchanged, the same value is a no-op (c05_second_value_refused, "
+             "c05_same_value_noop); typed literals of native datatypes are stored as the direct value (c05_entry_path_*); set_time "
+             "and add_asserted_type (after their fix: commits) keep normal form. Tied to /repo by op-sequence correspondence over all 18 "
+             "kinds x entry paths (new_record, 22 factories, 13 convenience methods) plus a direct normal-form oracle on the real records.",
+        note=A_COMMON + " float() and dateutil lexical mappings are assumptions (A-LEX), sampled. The membership multi-entity compatibility "
+             "path is not claimed (property text). set_time is a setter: it replaces the slot, it does not refuse.",
+        technique="Lean 4 invariant preservation proof over attribute-pair lists + op-sequence correspondence + normal-form oracle",
+        design="§4.C05"),
 }
 
 NOT_APPLICABLE = []
